@@ -1,5 +1,5 @@
 """C11 — A-FSSH moments: Hermiticity, integrators, hop shift, collapse."""
-import random, os, shutil
+import random, os, shutil, json
 import numpy as np
 from common import *
 from stubs import *
@@ -55,7 +55,8 @@ def collapse_probe(res, rng, tier, bad):
         state = {"collapsed": 0, "recorded": 0}
         orig_rec = tracer.record_event
         def rec(et, ed, orig_rec=orig_rec, state=state):
-            if et == "collapse": state["recorded"] += 1
+            if et == "collapse":
+                state["recorded"] += 1; state.setdefault("as_recorded", []).append(json.loads(json.dumps(ed)))
             return orig_rec(et, ed)
         tracer.record_event = rec
         # every moment propagation must depend only on the values of its inputs (no hidden shared state):
@@ -97,6 +98,9 @@ def collapse_probe(res, rng, tier, bad):
             evs = yaml.safe_load(open(os.path.join(tmproot, log.event_log))) or []
             held = [e for e in evs if "removed" in e]
         nev = len(held)
+        want_ev = state.get("as_recorded", [])
+        if len(held) == len(want_ev) and any(float(h_.get("time", -1)) != float(w_["time"]) or int(h_.get("removed", -1)) != int(w_["removed"]) or float(h_.get("gamma", -1)) != float(w_["gamma"]) for h_, w_ in zip(held, want_ev) if isinstance(h_, dict)):
+            bad.append(dict(failed="the collapse is recorded as an event in whichever trace store is used, and the store keeps each event as it was recorded (%s back-end: event times held %r, recorded %r)" % (backend, [h_.get("time") for h_ in held if isinstance(h_, dict)], [w_["time"] for w_ in want_ev]), case=dict(model=mname, backend=backend)))
         # every held collapse event says when, which state, the rate and the random numbers that decided it
         for e in held:
             ok_e = isinstance(e, dict) and all(f in e for f in ("time", "removed", "gamma", "eta")) and len(e["eta"]) == 2 \
